@@ -251,6 +251,16 @@ Theorem C10_completes :
 Proof. exact @seq_completes. Qed.
 Print Assumptions C10_completes.
 
+(* the boundary of the roulette arithmetic is inside the hypotheses of C10_operator_completes (alpha = beta = 0 and a best
+   expectation value of exactly 0 are allowed: 0 <= alpha, 0 <= beta, any evaluator): the model's guard is `bv <= 0`, the
+   offset is 1, selection completes.  A strict guard `bv < 0` would give fitness 0 and a ZeroDivisionError. *)
+Example C10_roulette_zero_boundary :
+  species_consistent (individual_heq Z.eqb) z_pop
+  /\ selection_op (individual_heq Z.eqb) (fun _ => Ok 0%Q) (mkSel 0 0 None) z_pop [0%nat] [KChoices 1 (Some [1 # 2]) [0%nat]]
+     = ([CbCount 1; CbResult (mkRes z_pop [0%Q] w_a 0%Q)], Ok (mkPop [w_a] (Some [w_a]) None None)).
+Proof. exact roulette_zero_boundary. Qed.
+Print Assumptions C10_roulette_zero_boundary.
+
 Example C10_completes_hypotheses_satisfiable :
   Forall (step_ok (V := Z)) w_steps /\ (forall x, exists v, w_ev x = Ok v)
   /\ pop_valid 1 w_pop = true /\ p_inds w_pop <> [] /\ selection_after_speciation false (map fst w_steps) = true.
